@@ -242,6 +242,15 @@ def rule_w3(ctx: Ctx) -> None:
     if len(names) != 2:
         raise AnalysisError(f"{wb.where}: expected two data files to be written")
     opens = [n for n in walk_no_nested(rb.node) if isinstance(n, ast.Call) and call_name(n) == ("open",)]
+    if not opens:
+        # pathlib spelling: Path(p).with_suffix(S).open(..) / open(Path(p).with_suffix(S)) REPLACES an existing suffix, the writer APPENDS one
+        ws = [n for n in walk_no_nested(rb.node) if isinstance(n, ast.Call) and isinstance(n.func, ast.Attribute) and n.func.attr == "with_suffix" and len(n.args) == 1
+              and isinstance(n.args[0], ast.Constant) and isinstance(n.args[0].value, str)]
+        appended = [a for _n, a, _w in names if fstring_suffix(a) is not None and isinstance(a, (ast.JoinedStr, ast.BinOp))]
+        if len(ws) == 1 and len(appended) == len(names):
+            ctx.violation("C20-W3", rb, ws[0], f"read_bisc_file opens `{unparse(ws[0])}`, which replaces whatever follows the last dot of the given name, while write_bisc_files appends "
+                          f"{fstring_suffix(appended[0])!r} to it: for a name containing a dot the reader looks for a file the writer never wrote")
+            return
     if len(opens) != 1:
         raise AnalysisError(f"{rb.where}: open() not found")
     rsuffix = fstring_suffix(opens[0].args[0])
@@ -588,9 +597,9 @@ def _drop_lru(fname: str):
 
 
 def variants():
-    from ..selftest import generic_silent
+    from ..selftest import generic_equiv, generic_silent
 
-    return _variants() + generic_silent(GENERIC_FILES)
+    return _variants() + generic_silent(GENERIC_FILES) + generic_equiv(GENERIC_FILES)
 
 
 def _variants():
